@@ -31,7 +31,7 @@ ASSUMPTIONS = [
 SHARDS = {"quick": 8, "thorough": 16}
 TIMEOUT = {"quick": 600, "thorough": 3600}
 MIN_CASES = {"quick": 40_000, "thorough": 500_000}
-REQUIRED_COUNTERS = ["postconditions_evaluated", "tier_i_exact", "tier_ii_exact", "tier_iii_tolerant", "format_errors_seen", "build_update_calls", "metadata_style_1", "metadata_style_2"]
+REQUIRED_COUNTERS = ["postconditions_evaluated", "tier_i_exact", "tier_ii_exact", "tier_iii_tolerant", "format_errors_seen", "build_update_calls", "metadata_style_1", "metadata_style_2", "metadata_style_3"]
 
 NUM_RE = re.compile(r"^[+-]?(\d+(\.\d*)?|\.\d+)([eE][+-]?\d+)?$")
 INT_FORMATS = ["uint8", "uint16", "uint32", "uint64", "int"]
@@ -121,6 +121,60 @@ def make_char(fmt, mn, mx, step, style: int = 0):
     ch.minValue = mn
     ch.maxValue = mx
     ch.minStep = step
+    return svc, ch
+
+
+BLE_FORMAT_CODE = {"uint8": (0x04, "B"), "uint16": (0x06, "H"), "uint32": (0x08, "L"), "uint64": (0x0A, "Q"), "int": (0x10, "l"), "float": (0x14, "f")}
+
+
+def ble_signature_expressible(fmt, mn, mx, step) -> bool:
+    """Can a HAP-BLE characteristic signature carry exactly these limits? (valid range = both bounds, values of the
+    characteristic's own wire type; for float only values that float32 represents exactly)"""
+    import struct
+
+    if fmt not in BLE_FORMAT_CODE or mn is None or mx is None:
+        return False
+    code = BLE_FORMAT_CODE[fmt][1]
+    for v in (mn, mx) + ((step,) if step is not None else ()):
+        if isinstance(v, bool):
+            return False
+        try:
+            if struct.unpack("<" + code, struct.pack("<" + code, v))[0] != v:
+                return False
+        except (struct.error, TypeError, OverflowError):
+            return False
+        if fmt != "float" and not isinstance(v, int):
+            return False
+    return step is None or step != 0
+
+
+def ble_signature_char(fmt, mn, mx, step):
+    """style 3: the limits reach the model the way they do on BLE - packed into a characteristic signature (reference packing
+    here), decoded by the real ble.structs.Characteristic, copied onto the model characteristic as BlePairing does."""
+    import struct
+
+    from aiohomekit.controller.ble.structs import Characteristic as BleSig
+    from aiohomekit.model import Accessory
+
+    fcode, pack = BLE_FORMAT_CODE[fmt]
+    sig = BleSig(
+        type=0xFF01, instance_id=9, properties=0x0030, presentation_format=struct.pack("<BxHxxx", fcode, 0x2700),
+        valid_range=struct.pack("<" + pack * 2, mn, mx), step_value=struct.pack("<" + pack, step) if step is not None else None,
+        valid_values=None, valid_values_range=None, service_instance_id=None, service_type=None, user_description=None,
+    )
+    decoded = BleSig.decode(sig.encode()).to_dict()
+    acc = Accessory(1)
+    svc = acc.add_service("0000FF00-0000-1000-8000-0026BB765291")
+    ch = svc.add_char(VENDOR_TYPE, iid=9)
+    ch.perms = decoded.get("perms", [])
+    if "format" in decoded:
+        ch.format = decoded["format"]
+    if "minStep" in decoded:
+        ch.minStep = decoded["minStep"]
+    if "minValue" in decoded:
+        ch.minValue = decoded["minValue"]
+    if "maxValue" in decoded:
+        ch.maxValue = decoded["maxValue"]
     return svc, ch
 
 
@@ -287,10 +341,11 @@ def run_case(ctx, fmt, mn, mx, step, value, entry, origin=None) -> None:
 
     import zlib
 
-    style = zlib.crc32(repr((fmt, mn, mx, step, value, entry)).encode()) % 4  # 0, 0, 1, 2: deterministic per case
-    style = 0 if style == 3 else style
+    style = zlib.crc32(repr((fmt, mn, mx, step, value, entry)).encode()) % 4  # deterministic per case
+    if style == 3 and not ble_signature_expressible(fmt, mn, mx, step):
+        style = 0
     ctx.count(f"metadata_style_{style}")
-    svc, ch = make_char(fmt, mn, mx, step, style)
+    svc, ch = ble_signature_char(fmt, mn, mx, step) if style == 3 else make_char(fmt, mn, mx, step, style)
     nontrivial = value is not None
     ctx.case(fmt, repr(mn), repr(mx), repr(step), repr(value), type(value).__name__, entry, nontrivial=nontrivial,
              sample={"format": fmt, "min": mn, "max": mx, "step": step, "input": repr(value), "entry": entry}, kind=(fmt, entry))
